@@ -126,6 +126,31 @@ func rarePoints(r *rng, perClass int) []pt {
 			return new(big.Int).Sub(curveP, new(big.Int).SetBytes(r.bytes(4)))
 		},
 	}
+	// (c) y whose low 26-bit word exceeds the prime's (0x3fffc2f), or whose second word exceeds 0x3ffffbf: a word-wise
+	//     p - y with too small a magnitude argument wraps there; x from the cube root of y^2 - 7
+	yClasses := []func() *big.Int{
+		func() *big.Int {
+			y := new(big.Int).SetBytes(r.bytes(32))
+			y.AndNot(y, mask26)
+			return y.Or(y, big.NewInt(int64(0x3fffc30+r.intn(0x3ffffff-0x3fffc30+1))))
+		},
+		func() *big.Int {
+			y := new(big.Int).SetBytes(r.bytes(32))
+			y.AndNot(y, new(big.Int).Lsh(mask26, 26))
+			return y.Or(y, new(big.Int).Lsh(big.NewInt(int64(0x3ffffc0+r.intn(64))), 26))
+		},
+	}
+	for _, yc := range yClasses {
+		found := 0
+		for i := 0; i < 400 && found < perClass; i++ {
+			y := new(big.Int).Mod(yc(), curveP)
+			v := new(big.Int).Mod(new(big.Int).Sub(new(big.Int).Mul(y, y), big.NewInt(7)), curveP)
+			if p, ok := fromCube(v); ok {
+				found++
+				out = append(out, pt{p.x, y}, pt{new(big.Int).Set(p.x), new(big.Int).Sub(curveP, y)})
+			}
+		}
+	}
 	for _, cl := range classes {
 		found := 0
 		for i := 0; i < 400 && found < perClass; i++ {
@@ -862,6 +887,21 @@ func genC14(e *emitter, r *rng, thorough bool) {
 						e.emit("wif.dec.badmarker", "wif.dec "+hx([]byte(base58.Encode(x))))
 					}
 				}
+			}
+		}
+	}
+	// a valid WIF in which one character is replaced by a multi-byte UTF-8 code point with the same low byte
+	// (U+0100+c, U+2100+c): not base58, must be rejected (a decoder ranging over runes and truncating accepts it)
+	{
+		w := []byte{0x80}
+		w = append(w, r.bytes(32)...)
+		w = append(w, 1)
+		w = append(w, crypto.Sha256d(w)[:4]...)
+		ws := base58.Encode(w)
+		for _, pos := range []int{0, 1, len(ws) / 2, len(ws) - 1} {
+			for _, hi := range []rune{0x100, 0x2100, 0x10000} {
+				x := ws[:pos] + string(hi+rune(ws[pos])) + ws[pos+1:]
+				e.emit("wif.dec.utf8-lookalike", "wif.dec "+hx([]byte(x)))
 			}
 		}
 	}
